@@ -39,7 +39,7 @@ _m(
     workers=(1, 16),
     technique="property-based testing (Hypothesis): generated image x shift x estimator configurations judged against an exact "
     "Fourier-translation ground truth, plus the metamorphic relations named by the property (identical images, swapped arguments)",
-    text="Generated-input search with hypothesis.target() on error/tolerance.  Every case knows its true translation by construction; "
+    text="Generated-input search (no hypothesis.target(): its optimiser stalled for minutes at one seed; fractional parts at the rounding boundaries are drawn explicitly instead, and the worst error/tolerance ratios are reported in coverage.extra).  Every case knows its true translation by construction; "
     "the estimate must be -s in the centred cell, the aligned image must be im moved by the returned shift and match ref, "
     "identical images must give 0 and swapped images the negated shift.  Exploration only: no absence claim.",
     note="Sub-pixel accuracy is only decidable for images whose correlation peak is well conditioned (guards above); the 1/up bound "
